@@ -71,6 +71,9 @@ def letters(seed):
         ("PM(X(a)Y(b);p)", cirq.measure_single_paulistring(cirq.X(a) * cirq.Y(b), key="p"), None, (), True, False),
         ("SUB[M(a;s),X(b)?s]", sub, [cirq.measure(a, key="s"), cirq.X(b).with_classical_controls("s")], (), True, False),
         ("Y(a)^g", cirq.Y(a) ** g, None, (), False, False),
+        ("M(a,b;ci,inv=(1,0),conf1@b,conf1@a)", cirq.measure(a, b, key="ci", invert_mask=(True, False),
+                                                              confusion_map={(1,): conf1, (0,): conf1}), None, (), True, False),
+        ("M(b;cj,inv=(1,),conf1)", cirq.measure(b, key="cj", invert_mask=(True,), confusion_map={(0,): conf1}), None, (), True, False),
     ]
     return L
 
@@ -394,7 +397,7 @@ def stages(tier, seed):
                 seqs.append(seq)
     if tier == "quick":
         # length-3 sequences on the feed-forward core
-        corel = [0, 3, 8, 1, 10, 12, 13, 2, 4, 14]
+        corel = [0, 3, 8, 1, 10, 12, 13, 2, 4, 14, 18]
         for seq in itertools.product(corel, repeat=3):
             if valid_seq(seq):
                 seqs.append(seq)
